@@ -16,6 +16,7 @@ import (
 	"github.com/ozontech/file.d/fd"
 	"github.com/ozontech/file.d/pipeline"
 	"github.com/ozontech/file.d/plugin/action/join"
+	"github.com/ozontech/file.d/plugin/action/split"
 	"github.com/ozontech/file.d/plugin/input/fake"
 	"github.com/prometheus/client_golang/prometheus"
 	"go.uber.org/zap"
@@ -33,13 +34,14 @@ import (
 //   procs     1 | 2 | 4 | 8            (1 = DisableParallelism, else GOMAXPROCS(procs/2))
 //   failpat   string over {0,1}: send attempt i of the main output fails iff failpat[i % len] == '1'
 //   chain     comma list: v<i> (scripted verdict action reading field "v", char i) | j<i> (real join on field m<i>)
+//             | p<i> (real split on field "arr": children are spawned, the parent breaks)
 //   event spec: JSON object text with "stream", "v", "m0", "m1" … fields
 // Events of source k get offsets k*100000 + 10*(index within source + 1); SourceID = k+1.
 //
 // result: <trace tokens…> <idle|stuck>
 //   put:off:seq get:off:seq gtm:S (time-out event taken) scm:off:seq att:S lv:S det:S tmo:S chg:S pop:S   (S = src.stream)
 //   out:off:proc prop:off:proc fin:off:flags add:off:B seal:seq:B bcm:seq:B   (B = M | D)
-//   send:B:seq:ok|fail:off,off,…   giveup:B:off,off,…
+//   send:B:seq:ok|fail:id,id,…   giveup:B:seq:id,id,…   spk:c<parentoff>.<k>:proc   (id = off | c<parentoff>.<k>)
 
 func init() {
 	execs["c01.run"] = execC01
@@ -61,6 +63,14 @@ type c01Trace struct {
 	stKeys map[[2]uint64]string // (streamID, fnv(name)) -> "src.stream"
 	bIDs   map[uint64]string    // batcher id -> M | D
 	fin    map[int64]int        // offset -> number of terminal finalizations (commit or drop)
+}
+
+// evID renders an event id of a trace line: the offset, or c<parentOffset>.<index> for a child of Spawn
+func evID(id uint64) string {
+	if id&pipeline.VerifChildBit != 0 {
+		return fmt.Sprintf("c%d.%d", (id&^pipeline.VerifChildBit)>>12, id&0xfff)
+	}
+	return strconv.FormatUint(id, 10)
 }
 
 func fnv1a(s string) uint64 {
@@ -124,7 +134,9 @@ func (t *c01Trace) sink(kind string, a, b uint64) {
 			t.fin[int64(a)]++
 		}
 	case "b.add":
-		t.toks = append(t.toks, fmt.Sprintf("add:%d:%s", a, batcher()))
+		t.toks = append(t.toks, fmt.Sprintf("add:%s:%s", evID(a), batcher()))
+	case "p.spawnkid":
+		t.toks = append(t.toks, fmt.Sprintf("spk:%s:%d", evID(a), b))
 	case "b.seal":
 		t.toks = append(t.toks, fmt.Sprintf("seal:%d:%s", a, batcher()))
 	case "b.commit":
@@ -204,6 +216,7 @@ type c01Output struct {
 	hasDQ    bool // a dead queue is configured behind this (main) output
 	failpat  string
 	attempts int
+	lastSeq  map[*pipeline.Event]int64 // first event of a batch -> its seq at the last send attempt
 	amu      sync.Mutex
 	batcher  *pipeline.RetriableBatcher
 	router   *pipeline.Router
@@ -230,9 +243,15 @@ func (o *c01Output) Start(_ pipeline.AnyConfig, params *pipeline.OutputPluginPar
 	onError := func(_ error, events []*pipeline.Event) {
 		offs := make([]string, 0, len(events))
 		for _, e := range events {
-			offs = append(offs, strconv.FormatInt(e.Offset, 10))
+			offs = append(offs, evID(pipeline.VerifEventID(e)))
 		}
-		o.tr.add("giveup:" + o.tag + ":" + strings.Join(offs, ","))
+		seq := int64(-1)
+		if len(events) > 0 {
+			o.amu.Lock()
+			seq = o.lastSeq[events[0]]
+			o.amu.Unlock()
+		}
+		o.tr.add(fmt.Sprintf("giveup:%s:%d:%s", o.tag, seq, strings.Join(offs, ",")))
 		for i := range events {
 			o.router.Fail(events[i])
 		}
@@ -260,10 +279,16 @@ func (o *c01Output) out(_ *pipeline.WorkerData, batch *pipeline.Batch) error {
 	o.amu.Lock()
 	i := o.attempts
 	o.attempts++
+	if first := pipeline.VerifBatchFirst(batch); first != nil {
+		if o.lastSeq == nil {
+			o.lastSeq = map[*pipeline.Event]int64{}
+		}
+		o.lastSeq[first] = pipeline.VerifBatchSeq(batch)
+	}
 	o.amu.Unlock()
 	fail := len(o.failpat) > 0 && o.failpat[i%len(o.failpat)] == '1'
 	var offs []string
-	batch.ForEach(func(e *pipeline.Event) { offs = append(offs, strconv.FormatInt(e.Offset, 10)) })
+	batch.ForEach(func(e *pipeline.Event) { offs = append(offs, evID(pipeline.VerifEventID(e))) })
 	res := "ok"
 	if fail {
 		res = "fail"
@@ -417,6 +442,25 @@ func execC01(t *hx.Toks) string {
 					MetricName:       "verif_j" + a[1:],
 					MatchMode:        pipeline.MatchModeAnd,
 				})
+			case 'p':
+				// the real split plugin on field "arr" (array of objects -> child events, parent breaks)
+				sinfo, err := fd.DefaultPluginRegistry.GetActionByType("split")
+				if err != nil {
+					runtime.GOMAXPROCS(oldProcs)
+					return "err-config"
+				}
+				_, scfg := sinfo.Factory()
+				sc := scfg.(*split.Config)
+				sc.Field = cfg.FieldSelector("arr")
+				if err := cfg.Parse(sc, nil); err != nil {
+					runtime.GOMAXPROCS(oldProcs)
+					return "err-config"
+				}
+				p.AddAction(&pipeline.ActionPluginStaticInfo{
+					PluginStaticInfo: &pipeline.PluginStaticInfo{Type: "split", Factory: sinfo.Factory, Config: sc},
+					MetricName:       "verif_p" + a[1:],
+					MatchMode:        pipeline.MatchModeAnd,
+				})
 			default:
 				runtime.GOMAXPROCS(oldProcs)
 				return "bad-case"
@@ -424,6 +468,7 @@ func execC01(t *hx.Toks) string {
 		}
 	}
 
+	pipeline.VerifForgetChildren()
 	pipeline.VerifSetTrace(tr.sink)
 	p.Start()
 
@@ -500,9 +545,21 @@ func execC01(t *hx.Toks) string {
 
 // ---- generator --------------------------------------------------------------------------------
 
-func c01Spec(stream, v string, ms []string) []byte {
+func c01Spec(stream, v string, ms []string) []byte { return c01SpecKids(stream, v, ms, 0) }
+
+func c01SpecKids(stream, v string, ms []string, kids int) []byte {
 	var sb strings.Builder
 	fmt.Fprintf(&sb, `{"stream":%q,"v":%q`, stream, v)
+	if kids > 0 {
+		sb.WriteString(`,"arr":[`)
+		for k := 0; k < kids; k++ {
+			if k > 0 {
+				sb.WriteByte(',')
+			}
+			fmt.Fprintf(&sb, `{"c":%d}`, k)
+		}
+		sb.WriteString("]")
+	}
 	for i, m := range ms {
 		if m != "" {
 			fmt.Fprintf(&sb, `,"m%d":%q`, i, m)
@@ -581,10 +638,21 @@ func genC01Case(rng *hx.Rng, allowDQ bool) *c01Gen {
 	if rng.Chance(1, 2) && nact > 0 {
 		joinAt = rng.Intn(nact)
 	}
+	// the real split plugin (children + breaking parent) in a quarter of the chains without a dead queue
+	splitAt := -1
+	if !g.dq && nact > 0 && rng.Chance(1, 4) {
+		splitAt = rng.Intn(nact)
+		if splitAt == joinAt {
+			splitAt = -1
+		}
+	}
 	for i := 0; i < nact; i++ {
-		if i == joinAt {
+		switch i {
+		case joinAt:
 			chain = append(chain, "j0")
-		} else {
+		case splitAt:
+			chain = append(chain, "p"+strconv.Itoa(i))
+		default:
 			chain = append(chain, "v"+strconv.Itoa(i))
 		}
 	}
@@ -619,7 +687,11 @@ func genC01Case(rng *hx.Rng, allowDQ bool) *c01Gen {
 				m = "x" + strconv.Itoa(i)
 			}
 		}
-		g.events = append(g.events, c01Event{src: src, stream: stream, spec: c01Spec(stream, string(v), []string{m})})
+		kids := 0
+		if splitAt >= 0 && rng.Chance(1, 3) {
+			kids = rng.Range(1, 3)
+		}
+		g.events = append(g.events, c01Event{src: src, stream: stream, spec: c01SpecKids(stream, string(v), []string{m}, kids)})
 	}
 	return g
 }
